@@ -666,7 +666,7 @@ func (r *run) settle(orderKey uint64) {
 			}
 		}
 		if !active && len(r.inflight) == 0 {
-			r.res.Count("probe.settled-in-sweeps", int64(sweep))
+			r.probe(fmt.Sprintf("settled-in-%02d-sweeps", sweep))
 			if sweep > 1 {
 				r.probe("settling-needed-more-than-one-sweep")
 			}
